@@ -41,6 +41,14 @@ def simple_block(name, natoms, nrexcl=1, multi=False, ifdef=True, extra_excl=Fal
     return BlockSpec(name, atoms, inters, nrexcl)
 
 
+def ring_block(name, nrexcl=1):
+    """a three-membered ring with one substituent on the first ring atom"""
+    atoms = [("%s%d" % (name.lower(), i + 1), "T%s%d" % (name, i + 1), 1, 0.0, 10.0 + i, 1, name) for i in range(4)]
+    inters = [("bonds", (0, 1), ["1", "0.30", "100"], {}), ("bonds", (1, 2), ["1", "0.31", "200"], {}),
+              ("bonds", (2, 0), ["1", "0.32", "300"], {}), ("bonds", (0, 3), ["1", "0.33", "400"], {})]
+    return BlockSpec(name, atoms, inters, nrexcl)
+
+
 def multi_res_block(name="MUL", nrexcl=1, first_resid=1):
     """a block that spans two residues (used through the from_itp label); its own residue numbers start at `first_resid`"""
     f = first_resid
